@@ -146,7 +146,7 @@ def x_prog(ctx, case):
         toks = [t for k, t, _ in env.raised if k in ("skip", "skipsub", "xfail", "uxs")]
         toks += [t for k, t, _ in env.raised if k.startswith("custom:")]
         if programs.is_decor_skip(program):
-            toks.append("DECOR-skip")
+            toks.append(program.get("decor_reason", "DECOR-skip"))
         if reason is None and out.payload["reason"] is not None:
             got = out.payload["reason"]
         else:
